@@ -65,6 +65,20 @@ def fam_task(task):
                                          case=_case(scripts, cache, cfg), finding=finding))
             if len(samples) < 2:
                 samples.append(dict(label=label, case=_case(scripts, cache, cfg), impl=iline[:200]))
+    # bytes of the real builders vs model/Builders.v (the definitions the builder theorems are about)
+    pid = {'c13': 'C13', 'c14': 'C14', 'c15': 'C15', 'c16': 'C16', 'c04': 'C04', 'c05': 'C05', 'c17': 'C17'}.get(name)
+    if pid:
+        for _ in range(max(1, rounds // 2)):
+            for p_, cmd, real in builders.bld_cases(rng):
+                if p_ != pid:
+                    continue
+                n += 1
+                stats['builder-bytes'] += 1
+                m = model.cmd(cmd)
+                if m != 'ok ' + tsh.hx(real):
+                    stats['builder-bytes-differ'] += 1
+                    if len(dis) < 5:
+                        dis.append(dict(label='builder bytes', cmd=cmd[:300], impl=real.hex()[:300], model=m[:300]))
     model.close()
     return dict(n=n, stats=dict(stats), labels=dict(labels), disagreements=dis, violations=viol, samples=samples,
                 distinct=len(digests), oracle_calls=model.oracle_calls)
